@@ -1,8 +1,8 @@
-import XjsModel.Proofs.RtUnfold
+import XjsModel.Proofs.RsUnfold
 /-
   Round trip, part 3: the Pratt invariant by induction on the tree.
 -/
-namespace Xjs.RTE
+namespace Xjs.RS
 open Xjs
 
 variable {cfg : PCfg}
@@ -209,4 +209,39 @@ theorem list_cons (hc : BaseCfg cfg) (e : SE) (es : SEList) (hw : e.wf = true) (
   rw [this, nextK_add, nextK_add, nextK_add]
   rfl
 
-end Xjs.RTE
+/-- `ParseFunctionParameters` from the `(` to the `)` -/
+theorem params_rt (ps : List Token) (hps : ps.all isIdentTok = true) (st : PS) (opn : Token) (rest : List Token)
+    (ht : st.toks = opn :: (paramToks ps ++ rpT :: rest)) (hr : rest ≠ []) :
+    parseFunctionParameters st = some (ps.map identOf, nextK ((paramToks ps).length + 1) st) := by
+  obtain ⟨r0, rs, hrs⟩ := List.exists_cons_of_ne_nil hr
+  unfold parseFunctionParameters
+  cases ps with
+  | nil =>
+    have ht' : st.toks = opn :: rpT :: rest := by simpa [paramToks] using ht
+    have : (st.peek.type == TokType.rparen) = true := by rw [peek_of_toks ht']; rfl
+    simp [this, paramToks, nextK]
+  | cons p ps =>
+    rw [paramToks_cons] at ht ⊢
+    have ht' : st.toks = opn :: p :: (cparamToks ps ++ rpT :: rest) := by simpa using ht
+    have hp : p.type = .ident := by
+      simp only [List.all_cons, Bool.and_eq_true] at hps
+      simpa [isIdentTok] using hps.1
+    have : (st.peek.type == TokType.rparen) = false := by rw [peek_of_toks ht', hp]; rfl
+    simp only [this, Bool.false_eq_true, if_false]
+    have h1 : st.next.toks = p :: (cparamToks ps ++ rpT :: rest) := next_toks_cons ht'
+    have hcur : identOfCur st.next = identOf p := by unfold identOfCur identOf; rw [cur_of_toks h1]
+    rw [params_loop ps [identOfCur st.next] st.next p rpT rest h1 (by decide), hcur]
+    simp only [Option.bind_eq_bind, Option.bind_some]
+    obtain ⟨last, hl, _⟩ := toks_after (p :: cparamToks ps) (by simp) (rpT :: rest) st.next (by rw [h1]; simp)
+    simp only [List.length_cons, Nat.add_sub_cancel] at hl
+    rw [hrs] at hl
+    have hpk : (nextK (cparamToks ps).length st.next).peek = rpT := peek_of_toks hl
+    have hexp : expectToken .rparen (nextK (cparamToks ps).length st.next) = (true, (nextK (cparamToks ps).length st.next).next) :=
+      expect_ok (by rw [hpk]; rfl)
+    simp only [hexp, if_true, List.singleton_append, List.map_cons]
+    congr 2
+    have e1 : (nextK (cparamToks ps).length st.next).next = nextK ((cparamToks ps).length + 1) st.next := (nextK_succ' _ _).symm
+    have e2 : nextK ((cparamToks ps).length + 1) st.next = nextK (1 + ((cparamToks ps).length + 1)) st := by rw [nextK_add 1]; rfl
+    rw [e1, e2]; congr 1; simp; omega
+
+end Xjs.RS
